@@ -238,6 +238,26 @@ def interp(ctx, aid, table):
         ctx.done_latch(aid).set()
 
 
+def _groupsnap(ctx):
+    g = ctx.group
+    ids = [str(gw.id) for gw in g]
+    n = len(g)
+    by_index = []
+    for i in range(n):
+        try:
+            by_index.append(str(g[i].id))
+        except Exception as e:  # noqa: BLE001
+            by_index.append("!" + type(e).__name__)
+    member = [bool(i in g) for i in ids]
+    by_id = []
+    for i in ids:
+        try:
+            by_id.append(str(g[i].id))
+        except Exception as e:  # noqa: BLE001
+            by_id.append("!" + type(e).__name__)
+    return ("snap", ids, n, by_index, member, by_id, bool("no-such-id" in g))
+
+
 class NoChannel(LookupError):
     """Harness-level: an earlier op that should have produced the channel failed."""
 
@@ -471,25 +491,14 @@ def do_op(ctx, aid, oi, table, op):
         gw.exit()
         return ("ok",)
     if k == "groupsnap":
-        # one consistent look at the container protocol (no sync point inside)
-        g = ctx.group
-        ids = [str(gw.id) for gw in g]
-        n = len(g)
-        by_index = []
-        for i in range(n):
-            try:
-                by_index.append(str(g[i].id))
-            except Exception as e:  # noqa: BLE001
-                by_index.append("!" + type(e).__name__)
-        member = [bool(i in g) for i in ids]
-        by_id = []
-        for i in ids:
-            try:
-                by_id.append(str(g[i].id))
-            except Exception as e:  # noqa: BLE001
-                by_id.append("!" + type(e).__name__)
-        return ("snap", ids, n, by_index, member, by_id, bool("no-such-id" in g))
+        # one consistent look at the container protocol (no sync point and no line preemption inside)
+        s.current.notrace += 1
+        try:
+            return _groupsnap(ctx)
+        finally:
+            s.current.notrace -= 1
     if k == "grouplen":
+
         return ("val", len(ctx.group))
     if k == "now":
         return ("val", s.now)
